@@ -80,7 +80,8 @@ def run(c):
     # logged since the last #ENDHEIGHT — the recovered node must be exactly where its never-stopped twin is and
     # must re-publish only what it had signed before
     import checks.C01 as c01
-    c01.net_runs(c, ["4w-restart", "5w-restart"] + (["4eq-restart"] if th else []), 30 if th else 3, ("net:agreement", "net:panic"))
+    c01.net_runs(c, ["4w-restart", "5w-restart", "5w-change-restart"] + (["4eq-restart", "4w-wait-restart"] if th else []), 30 if th else 3,
+                 ("net:agreement", "net:panic"))
     c.extra["crash_points_compared_with_model"] = compared
     c.extra["model_crash_points"] = len(pts)
     c.traces += compared
